@@ -3,6 +3,11 @@
 HOOK_COMMITS = []
 
 TEXT = {
+    "C01": {
+        "technique": "property-based testing (rapid) with an independent NIP-01 serializer + btcec signing as oracle; single-alteration metamorphic checks; native go fuzz target in the thorough tier",
+        "level_text": "Exploration: generated events over all Unicode scalar values are serialized, signed and altered; Serialize() must equal an independently written canonical serializer byte for byte, every signed event must verify and each of ~14 single alterations must not. Sound, not exhaustive.",
+        "level_note": "Trusted: harness/gen/nip01.go canonical serializer (written from the NIP text), btcec/v2/schnorr as BIP-340 implementation, crypto/sha256. Strings are valid UTF-8.",
+    },
     "C02": {
         "technique": "property-based testing (rapid): generated events x filters against a naive NIP-01 predicate; LimitMatch/Done sequences against model counters",
         "level_text": "Exploration: thousands of generated (event, filter) pairs, filter lists and LimitMatch sequences per run are compared with an independent naive implementation of the NIP-01 predicate; sound (oracle is the property text) but not exhaustive.",
